@@ -71,7 +71,7 @@ func (fr *frame) loopEnv(st *PState, b *ssa.BasicBlock) *SpecEnv {
 
 func (fr *frame) assertInvariants(st *PState, b *ssa.BasicBlock, ord int, invs []Clause, kind string) {
 	tc := fr.top
-	env := fr.loopEnv(st, b)
+	env := fr.loopEnv(st, b).Goal()
 	for i, c := range invs {
 		t, err := env.TrBool(c.Expr)
 		if err != nil {
@@ -473,8 +473,18 @@ func (fr *frame) assertSteps(st *PState, b *ssa.BasicBlock, ord int) {
 	if snap == nil {
 		bail("loop %d: no iteration snapshot", ord)
 	}
-	env := fr.loopEnv(st, b)
+	env := fr.loopEnv(st, b).Goal()
 	env.old = snap
+	// prev_<name>: the loop-carried variable <name> at the start of this iteration
+	for _, ins := range b.Instrs {
+		phi, ok := ins.(*ssa.Phi)
+		if !ok {
+			break
+		}
+		if v, ok := snap.env[phi]; ok && phi.Comment != "" {
+			env.vars["prev_"+phi.Comment] = v
+		}
+	}
 	for i, c := range steps {
 		t, err := env.TrBool(c.Expr)
 		if err != nil {
